@@ -222,17 +222,52 @@ class CFG:
         return fall + rets
 
     # ---- conditions, conjunct-split with polarity pushing
-    def _cond(self, expr, preds, k: _K):
+    def _bool_defs(self, fdef):
+        """Single-assignment boolean locals of a function: name -> defining expression.  A test on such a name is split
+        like the expression itself (the value was computed at the assignment; only the branch facts are refined)."""
+        cache = self.__dict__.setdefault('_bool_def_cache', {})
+        if id(fdef) in cache:
+            return cache[id(fdef)]
+        counts, defs = {}, {}
+
+        def walk(n):
+            for c in ast.iter_child_nodes(n):
+                if isinstance(c, (ast.FunctionDef, ast.AsyncFunctionDef, ast.Lambda, ast.ClassDef)):
+                    continue
+                if isinstance(c, ast.Name) and isinstance(c.ctx, (ast.Store, ast.Del)):
+                    counts[c.id] = counts.get(c.id, 0) + 1
+                if isinstance(c, ast.Assign) and len(c.targets) == 1 and isinstance(c.targets[0], ast.Name) and \
+                        isinstance(c.value, (ast.BoolOp, ast.Compare)) or (isinstance(c, ast.Assign) and len(c.targets) == 1 and isinstance(c.targets[0], ast.Name)
+                                                                          and isinstance(c.value, ast.UnaryOp) and isinstance(c.value.op, ast.Not)):
+                    defs[c.targets[0].id] = c.value
+                walk(c)
+
+        walk(fdef)
+        args = getattr(fdef, 'args', None)
+        params = {a.arg for a in (args.posonlyargs + args.args + args.kwonlyargs)} if args is not None else set()
+        out = {n: e for n, e in defs.items() if counts.get(n, 0) == 1 and n not in params}
+        cache[id(fdef)] = out
+        return out
+
+    def _cond(self, expr, preds, k: _K, _expanding=()):
         """Returns (true_outs, false_outs)."""
+        if isinstance(expr, ast.Name) and expr.id not in _expanding:
+            d = self._bool_defs(self._inline_stack[-1]).get(expr.id)
+            if d is not None:
+                self._no_exc = getattr(self, '_no_exc', 0) + 1
+                try:
+                    return self._cond(d, preds, k, _expanding + (expr.id,))
+                finally:
+                    self._no_exc -= 1
         if isinstance(expr, ast.UnaryOp) and isinstance(expr.op, ast.Not):
-            t, f = self._cond(expr.operand, preds, k)
+            t, f = self._cond(expr.operand, preds, k, _expanding)
             return f, t
         if isinstance(expr, ast.BoolOp):
             if isinstance(expr.op, ast.And):
                 f_all = []
                 cur = preds
                 for v in expr.values:
-                    t, f = self._cond(v, cur, k)
+                    t, f = self._cond(v, cur, k, _expanding)
                     f_all += f
                     cur = t
                 return cur, f_all
@@ -240,13 +275,14 @@ class CFG:
                 t_all = []
                 cur = preds
                 for v in expr.values:
-                    t, f = self._cond(v, cur, k)
+                    t, f = self._cond(v, cur, k, _expanding)
                     t_all += t
                     cur = f
                 return t_all, cur
         n = self._new('test', expr)
         self._connect(preds, n.id)
-        self._exc_edge(n, k)
+        if not getattr(self, '_no_exc', 0):
+            self._exc_edge(n, k)
         return [(n.id, 'T')], [(n.id, 'F')]
 
     # ---- try / finally
